@@ -130,19 +130,64 @@ func footprintOfDir(root, dir, pkgShort string) []fnFoot {
 			})
 			reads, writes, calls := map[string]bool{}, map[string]bool{}, map[string]bool{}
 			global := func(id *ast.Ident) bool { return id != nil && pkgVars[id.Name] && !locals[id.Name] }
+			// local names bound to (something reached from) a package-level variable: writing THROUGH them writes it
+			alias := map[string]string{}
+			ast.Inspect(fd.Body, func(n ast.Node) bool {
+				if x, ok := n.(*ast.AssignStmt); ok && x.Tok == token.DEFINE {
+					for i, l := range x.Lhs {
+						id, ok := l.(*ast.Ident)
+						if !ok {
+							continue
+						}
+						var rhs ast.Expr
+						if len(x.Rhs) == len(x.Lhs) {
+							rhs = x.Rhs[i]
+						} else if len(x.Rhs) == 1 {
+							rhs = x.Rhs[0]
+						}
+						if u, ok := rhs.(*ast.UnaryExpr); ok && u.Op == token.AND {
+							rhs = u.X
+						}
+						if r := rootIdent(rhs); r != nil {
+							if global(r) {
+								alias[id.Name] = r.Name
+							} else if a, ok := alias[r.Name]; ok {
+								alias[id.Name] = a
+							}
+						}
+					}
+				}
+				return true
+			})
+			// the variable written when assigning to / calling a method on expression e (nil: a plain local)
+			target := func(e ast.Expr) string {
+				id := rootIdent(e)
+				if id == nil {
+					return ""
+				}
+				if global(id) {
+					return id.Name
+				}
+				if _, bare := e.(*ast.Ident); !bare {
+					if a, ok := alias[id.Name]; ok {
+						return a
+					}
+				}
+				return ""
+			}
 			ast.Inspect(fd.Body, func(n ast.Node) bool {
 				switch x := n.(type) {
 				case *ast.AssignStmt:
 					if x.Tok != token.DEFINE {
 						for _, l := range x.Lhs {
-							if id := rootIdent(l); global(id) {
-								writes[id.Name] = true
+							if t := target(l); t != "" {
+								writes[t] = true
 							}
 						}
 					}
 				case *ast.IncDecStmt:
-					if id := rootIdent(x.X); global(id) {
-						writes[id.Name] = true
+					if t := target(x.X); t != "" {
+						writes[t] = true
 					}
 				case *ast.UnaryExpr:
 					// taking the address of a global lets it be written elsewhere
@@ -158,17 +203,29 @@ func footprintOfDir(root, dir, pkgShort string) []fnFoot {
 					}
 					calls[fn] = true
 					if fn == "delete" && len(x.Args) > 0 {
-						if id := rootIdent(x.Args[0]); global(id) {
-							writes[id.Name] = true
+						if id := rootIdent(x.Args[0]); id != nil {
+							if global(id) {
+								writes[id.Name] = true
+							} else if a, ok := alias[id.Name]; ok {
+								writes[a] = true
+							}
 						}
 					}
-					// method calls on a global other than the registry's lock methods count as writes of that global
+					// method calls on (an alias of) a global other than the registry's lock methods count as writes of it
 					if sel, ok := x.Fun.(*ast.SelectorExpr); ok {
-						if id := rootIdent(sel.X); global(id) {
-							switch sel.Sel.Name {
-							case "Lock", "Unlock", "RLock", "RUnlock":
-							default:
-								writes[id.Name] = true
+						if id := rootIdent(sel.X); id != nil {
+							t := ""
+							if global(id) {
+								t = id.Name
+							} else if a, ok := alias[id.Name]; ok {
+								t = a
+							}
+							if t != "" {
+								switch sel.Sel.Name {
+								case "Lock", "Unlock", "RLock", "RUnlock":
+								default:
+									writes[t] = true
+								}
 							}
 						}
 					}
